@@ -228,6 +228,10 @@ class Run:
                 return a_() if callable(a_) else a_
             return UNKNOWN
         if c.endswith("Rc::strong_count") or c.endswith("Rc::weak_count"):
+            if isinstance(a0, Frame) and c.endswith("strong_count"):
+                # procedures the frame itself binds that are closed over it hold it as well (an internal procedure definition)
+                return self.rc_count + sum(1 for v_ in a0.defs.d.values() for u in find_enum(v_[1], "User")
+                                           if len(u.fields) > 1 and u.fields[1] is a0)
             return self.rc_count
         if c.endswith("Rc::ptr_eq"):
             return a0 is a[1]
